@@ -53,6 +53,11 @@ func (trans *Transport) Transport(ctx context.Context, request []byte) ([]byte, 
 		return nil, err
 	}
 	defer resp.Body.Close()
+	if resp.Request != nil && resp.Request.Method != req.Method {
+		// a 301, 302 or 303 on the way: net/http has followed it with a GET that carries no
+		// body, and what came back answers an empty request, not this one
+		return nil, errors.New("hprose/rpc/http: redirected to " + resp.Request.URL.String() + " as " + resp.Request.Method + ", the request was not delivered")
+	}
 	clientContext.Items().Set("httpStatusCode", resp.StatusCode)
 	clientContext.Items().Set("httpStatusText", http.StatusText(resp.StatusCode))
 	switch resp.StatusCode {
@@ -149,7 +154,20 @@ func (factory transportFactory) New() core.Transport {
 		ExpectContinueTimeout: time.Millisecond * 500,
 	}
 	transport.HTTPClient.Jar = globalCookieJar
+	transport.HTTPClient.CheckRedirect = checkRedirect
 	return transport
+}
+
+// checkRedirect refuses the redirects that net/http follows with a GET without a body (301,
+// 302, 303): the service behind them would be handed an empty request instead of the call.
+func checkRedirect(req *http.Request, via []*http.Request) error {
+	if len(via) > 0 && req.Method != via[0].Method {
+		return errors.New("hprose/rpc/http: redirect to " + req.URL.String() + " as " + req.Method + " would not deliver the request")
+	}
+	if len(via) >= 10 {
+		return errors.New("stopped after 10 redirects")
+	}
+	return nil
 }
 
 func RegisterTransport() {
